@@ -22,6 +22,7 @@ _IMP = "From Coq Require Import ZArith String.\nFrom SS Require Import Base M_Sl
 KINDS = {
     "main": dict(imports=_IMP, type="slice_case", mismatch="mismatches", nontrivial="count_nontrivial"),
     "pyslice": dict(imports=_IMP, type="pyslice_case", mismatch="pyslice_mismatches", nontrivial=None),
+    "hist": dict(imports=_IMP, type="hist_case", mismatch="hist_mismatches", nontrivial="hist_nontrivial"),
 }
 RULE = ("call chains of 1..7 links over {plain, generator, coroutine, stackscope-named modules, singledispatch wrapper} "
         "x greenlet splits (0..3 nested greenlets, incl. a never-started parent) x base {fresh thread, main thread}; "
@@ -96,6 +97,23 @@ def make_inputs(tier, seed):
                 yield dict(chain=ch, api="slice", base=base, sel={"mode": "part", "i": i, "of": parts}, **sig)
             yield dict(chain=ch, api="until", base=base, sel=None, **sig)
         yield dict(chain=ch, api="since", base=base, sel=None, **sig)
+    # histories: the same frame of the same (non-main) greenlet extracts again after the enclosing
+    # stack has changed (parent re-enters the worker from another depth / the generator frame is
+    # resumed by another caller); caches keyed on frame identity are the bug class
+    hseqs = [[0, 2, 0], [1, 3], [2, 0, 1, 0]] if quick else [[0, 2, 0], [1, 3], [2, 0, 1, 0], [0, 0], [3, 1, 2], [0, 4, 0, 4]]
+    for hist in ("worker", "gen"):
+        for depths in hseqs:
+            for nest in (0, 1):
+                for wdepth in ((0, 2) if quick else (0, 1, 2)):
+                    if quick and (nest + wdepth + len(depths) + seed) % 2:
+                        continue
+                    yield dict(_kind="hist", hist=hist, depths=depths, nest=nest, wdepth=wdepth, api="since",
+                               chain="hist", base="thread", sel=None)
+                    yield dict(_kind="hist", hist=hist, depths=depths, nest=nest, wdepth=wdepth, api="slice",
+                               chain="hist", base="thread", sel={"mode": "sample", "k": 150 if quick else 600, "seed": seed})
+                    if not quick:
+                        yield dict(_kind="hist", hist=hist, depths=depths, nest=nest, wdepth=wdepth, api="until",
+                                   chain="hist", base="thread", sel={"mode": "sample", "k": 300, "seed": seed})
     # python slicing: one case = (length, start) x every stop x every step, plus del l[start:stop]
     top = 4 if quick else 6
     for n in range(top + 1):
@@ -167,8 +185,14 @@ def run_case(desc):
             del l[desc["a"]:b]
             rows.append([b, sl, l])
         return rows
+    if kind == "hist":
+        return run_hist(desc)
     c = _ctx_class()(desc)
     c.run(desc["base"])
+    return _obs(c)
+
+
+def _obs(c):
     internal = c.internal_chain()
     cur = [(500 + k, m, sd) for k, (_, m, sd) in enumerate(internal)] + c.frame_names(c.segs[0])
     return {
@@ -182,6 +206,95 @@ def run_case(desc):
         "queries": [[q[3], c.encode(r)] for q, r in zip(c.queries, c.results)],
         "problems": c.problems,
     }
+
+
+HIST_SRC = {
+    "worker": """def loop(ctx):
+    while ctx.rounds_left():
+        ctx.prepare(sys._getframe(0))
+        for q in ctx.queries:
+            ctx.begin(q)
+            try:
+                r = q[0](*q[1], **q[2])
+            except BaseException as e:
+                r = e
+            ctx.end(q, r)
+        ctx.finish_round()
+        ctx.driver.switch()
+""",
+    "gen": """def loop(ctx):
+    while ctx.rounds_left():
+        ctx.prepare(sys._getframe(0))
+        for q in ctx.queries:
+            ctx.begin(q)
+            try:
+                r = q[0](*q[1], **q[2])
+            except BaseException as e:
+                r = e
+            ctx.end(q, r)
+        ctx.finish_round()
+        yield
+""",
+}
+
+
+def _rec(k, f):
+    if k == 0:
+        return f()
+    return _rec(k - 1, f)
+
+
+def run_hist(desc):
+    """Rounds of extractions issued from ONE frame (the loop frame of a worker greenlet, or a
+    generator frame running inside a child greenlet); between rounds the enclosing stack changes."""
+    import sys
+    C = _ctx_class()
+
+    class H(C):
+        def __init__(self, desc):
+            super().__init__(dict(desc, chain="p"))
+            self.desc = desc
+            self.rounds = []
+            glb = {"sys": sys, "__name__": "vuser.hist"}
+            exec(compile(HIST_SRC[desc["hist"]], "<hist:%s>" % desc["hist"], "exec"), glb)
+            self.loop = glb["loop"]
+
+        def rounds_left(self):
+            return len(self.rounds) < len(self.desc["depths"])
+
+        def finish_round(self):
+            self.rounds.append(_obs(self))
+            self.results, self.records = [], []
+
+        def body(self):
+            g = self.greenlet
+            depths = self.desc["depths"]
+            wdepth = self.desc["wdepth"]
+            if self.desc["hist"] == "worker":
+                self.driver = g.getcurrent()
+                w = g.greenlet(lambda: _rec(wdepth, lambda: self.loop(self)))
+                for d in depths:
+                    _rec(d, w.switch)
+                w.switch()                      # let the loop run off its end
+            else:
+                def inner():
+                    it = self.loop(self)
+                    _rec(wdepth, lambda: [_rec(d, lambda: next(it)) for d in depths])
+                    next(it, None)
+                g.greenlet(inner).switch()
+
+        def entry(self):
+            self.setup_foreign()
+            try:
+                if self.desc["nest"]:
+                    self.greenlet.greenlet(self.body).switch()
+                else:
+                    self.body()
+            finally:
+                self.teardown_foreign()
+    h = H(desc)
+    h.run(desc["base"])
+    return {"rounds": h.rounds}
 
 
 # ------------------------------------------------------------------ Gallina
@@ -235,6 +348,12 @@ def coq_case(desc, obs):
         rows = clist("(%s, %s, %s)" % (_oz(b), clist("(%s, %s)" % (cZ(st), nl(r)) for st, r in sl), nl(d))
                      for b, sl, d in obs)
         return "(%s, %s,\n %s)" % (nl(range(desc["n"])), _oz(desc["a"]), rows)
+    if kind == "hist":
+        return clist(_case(o) for o in obs["rounds"])
+    return _case(obs)
+
+
+def _case(obs):
     qs = clist("(%s, %s)" % (_api(q), _res(r)) for q, r in obs["queries"])
     return "(%s,\n %s)" % (_world(obs), qs)
 
@@ -288,8 +407,22 @@ def _expected(obs, q):
 
 
 def direct_oracle(desc, obs):
-    if desc.get("_kind", "main") != "main":
+    kind = desc.get("_kind", "main")
+    if kind == "hist":
+        for rnd, o in enumerate(obs["rounds"]):
+            msg = _oracle_obs(o)
+            if msg:
+                return ("round %d of %d (same %s frame, enclosing stack re-entered at depth %d; stack now %r): %s"
+                        % (rnd + 1, len(obs["rounds"]), desc["hist"], desc["depths"][rnd], o["names"], msg))
+        if len(obs["rounds"]) != len(desc["depths"]):
+            return "history ended after %d of %d rounds" % (len(obs["rounds"]), len(desc["depths"]))
         return None
+    if kind != "main":
+        return None
+    return _oracle_obs(obs)
+
+
+def _oracle_obs(obs):
     if obs["problems"]:
         return "harness self-check failed: " + "; ".join(obs["problems"])
     o2 = dict(obs, cur_user=[i for i, _, _ in obs["cur"] if i < 500])
@@ -305,6 +438,10 @@ def direct_oracle(desc, obs):
 
 
 def classify(desc, obs):
+    if desc.get("_kind", "main") == "hist":
+        return ["hist:" + desc["hist"], "hist:api=" + desc["api"], "hist:rounds=%d" % len(obs["rounds"]),
+                "hist:segments=%d" % (1 + len(obs["rounds"][0]["parents"])),
+                "hist:distinct-stacks=%d" % len({tuple(o["names"]) for o in obs["rounds"]})]
     if desc.get("_kind", "main") != "main":
         return [desc["_kind"]]
     labs = ["api:" + desc["api"], "segments=%d" % (1 + len(obs["parents"])), "base:" + desc["base"],
